@@ -3,6 +3,7 @@ package props
 import (
 	"encoding/json"
 	"fmt"
+	"github.com/vektah/gqlparser/v2/validator/rules"
 	"os"
 	"strings"
 	"time"
@@ -287,6 +288,63 @@ enum Kind { DOG CAT }`})
 			kitVocab = []string{"__typename", "__schema", "__type", "types", "name", "q", "Query", "String", "F", "nope"}
 			forEachBlindDoc(c, s, nb, visit)
 			kitVocab = saved
+		}
+		s.WallS = time.Since(t0).Seconds()
+	}
+	// after the process-wide rule set was edited through its public API
+	s = c.Sub("after-rule-edits", fmt.Sprintf("after ReplaceRule of every standard rule by itself, of one rule by its without-suggestions variant, and after RemoveRule + AddRule of a rule: %d documents validated under the default rule set, against both kit schemas", len(c02BlindDocs)+len(regDocs)),
+		"Validate returns normally (no panic, bounded steps and depth)", "documents with at least one error")
+	if s != nil && c.Shard == 0 {
+		t0 := time.Now()
+		edits := []struct {
+			name string
+			do   func()
+		}{
+			{"ReplaceRule(every rule, itself)", func() {
+				for _, r := range c18Standard {
+					validator.ReplaceRule(r.Name, r.RuleFunc)
+				}
+			}},
+			{"ReplaceRule(KnownTypeNames, itself)", func() { validator.ReplaceRule("KnownTypeNames", rules.KnownTypeNamesRule.RuleFunc) }},
+			{"ReplaceRule(FieldsOnCorrectType, without suggestions)", func() {
+				validator.ReplaceRule("FieldsOnCorrectType", rules.FieldsOnCorrectTypeRuleWithoutSuggestions.RuleFunc)
+			}},
+			{"ReplaceRule(unregistered name)", func() { validator.ReplaceRule("NoSuchRule", rules.ScalarLeafsRule.RuleFunc) }},
+			{"RemoveRule + AddRule(ScalarLeafs)", func() {
+				validator.RemoveRule("ScalarLeafs")
+				validator.AddRule("ScalarLeafs", rules.ScalarLeafsRule.RuleFunc)
+			}},
+		}
+		docs := append(append([]string{}, c02BlindDocs...), regDocs...)
+		for _, e := range edits {
+			regReset()
+			e.do()
+			for si := 0; si < 2; si++ {
+				for _, text := range docs {
+					s.States++
+					s.Executions++
+					s.Transitions++
+					doc, perr := parser.ParseQuery(&ast.Source{Name: "q.graphql", Input: text})
+					if perr != nil {
+						s.Skipped++
+						continue
+					}
+					var errs gqlerror.List
+					r := guarded(c02DocBudget, 5000, func() { errs = validator.Validate(kitSchema(si), doc) })
+					if r.Panicked {
+						c.Report(s, explore.Violation{Key: "panic-after-rule-edit site=" + r.Site + " msg=" + normMsg(r.PanicVal), Input: explore.J(map[string]any{"edit": e.name, "doc": text, "schema": si}), Rendered: e.name + "\n" + text,
+							Detail: "Validate panicked under the default rule set after " + e.name + ": " + r.PanicVal + "\n" + trimStack(r.Stack)})
+						s.Outcome("panic")
+						continue
+					}
+					s.Validated++
+					if len(errs) > 0 {
+						s.Nontrivial++
+					}
+					s.Outcome("returns after " + e.name)
+				}
+			}
+			regReset()
 		}
 		s.WallS = time.Since(t0).Seconds()
 	}
